@@ -33,6 +33,38 @@ func init() {
 				// having applied the block
 				cfg.PAppError = 0.05
 			}
+			if r.Bool(0.3) {
+				// persistent nodes whose cache is smaller than the window of events in
+				// flight: events are evicted between the pass that gives them their
+				// round / Lamport timestamp and the creation of the frame, and are
+				// re-read from the database without those derived fields
+				mixStores(cfg, r, 0.7)
+				cfg.BadgerCache = []int{30, 40, 60, 100}[r.Intn(4)]
+				// (the consensus passes touch every undetermined event, which keeps
+				// them in the cache: only stretches without progress - two validators
+				// exchanging syncs among themselves - make the backlog outgrow it)
+				cfg.ChattyPair = true
+				if r.Bool(0.35) {
+					// the backlog may outgrow the cache (expensive: every pass re-reads
+					// the evicted events from the database - short runs, small networks)
+					cfg.BacklogOverCache = true
+					cfg.BadgerCache = []int{30, 40}[r.Intn(2)]
+					if cfg.N0 > 4 {
+						cfg.N0 = 4
+						cfg.Stores = cfg.Stores[:4]
+					}
+					cfg.Stores[0] = "badger"
+					cfg.Steps = r.Range(50, 110)
+					cfg.PJoin, cfg.PLeave, cfg.MaxJoins, cfg.MaxLeaves = 0, 0, 0, 0
+				} else {
+					cfg.Steps += 60
+				}
+				if cfg.N0 >= 4 && r.Bool(0.5) {
+					cfg.Straggler = 1 + r.Intn(cfg.N0)
+					cfg.StragglerP = []float64{0.03, 0.1, 0.2}[r.Intn(3)]
+					cfg.PSilence = 0
+				}
+			}
 			return cfg
 		},
 		run: clusterRun,
